@@ -1594,11 +1594,27 @@ func (s *State) evalSteps(lf *loopFrame, exit bool, results map[string]Val) {
 		return
 	}
 	where := s.eng.pos(l.MinPos)
+	entered := !(exit && results == nil && s.prev == l.Header)
+	if !entered && (l.RangeIdx != nil || l.MapRange != nil) {
+		// a range loop left from its header: no element was visited in this "iteration"
+		return
+	}
 	env := s.specEnv()
 	env.iter = lf.Head
 	env.pre = lf.Pre
 	env.lp = l
-	env.vars = map[string]Val{"$exit": mkBool(fmt.Sprint(exit)), "$returned": mkBool(fmt.Sprint(results != nil))}
+	env.vars = map[string]Val{"$exit": mkBool(fmt.Sprint(exit)), "$returned": mkBool(fmt.Sprint(results != nil)), "$entered": mkBool(fmt.Sprint(entered))}
+	if results == nil {
+		// not returning: result names are bound to zero values (clauses guard them with $returned)
+		sig := s.fn.Signature
+		for i := 0; i < sig.Results().Len(); i++ {
+			z := zeroVal(sig.Results().At(i).Type())
+			env.vars[fmt.Sprintf("result%d", i)] = z
+			if sig.Results().Len() == 1 {
+				env.vars["result"] = z
+			}
+		}
+	}
 	for k, v := range results {
 		env.vars[k] = v
 	}
